@@ -23,6 +23,9 @@ CLAIMED = {
  "C14": ("SSA freshness over the Assoc/Dissoc call tree and element-variable code (FRESH); def-use check that the head variable is set only from the Assoc/Dissoc chain (ASSOC-CHAIN)",
          "Structural lemma: element assignment/deletion reaches containers only through vals.Index/Assoc/Dissoc, none of which (nor the persistent packages under them) writes into non-fresh memory, and the head variable is rebound only to the chain's result. That exactly the addressed element changes is not decided.",
          "trusts go/ssa; user-defined Assocer implementations outside pkg/eval/vals are not followed"),
+ "C17": ("interprocedural taint from script-controlled values to panic-prone operations with dominating-guard facts (PANIC-SINK); variadic-argument index check (VARIADIC-INDEX)",
+         "Structural necessary condition for the no-panic clause: no value chosen by the script (command arguments and options, redirection fds, input values, evaluated expressions) reaches an index, slice bound, make size, integer divisor, signed shift, unchecked type assertion or argument-panicking library call unless checks on every path establish that it is safe; audited exceptions are listed with reasons. Nil dereferences, resource exhaustion and the no-hang clause are not decided.",
+         "trusts go/ssa, the curated library-sink table and the audit table (sa/internal/rules/c17.go); guard facts assume loads of the same field between a check and its use see the same value"),
  "C39": ("lockset dataflow over SSA with boolean-correlated path sensitivity (EVALER-LOCK, PTRVAR-LOCK); guarded-field set derived from the struct declaration (GUARDED-SET)",
          "Structural necessary condition, all paths of all functions: every access to the interpreter's mutex-guarded fields and every dereference of a PtrVar pointer happens with the right lock held; maps do not leave the critical section; locks are balanced. Freedom from races on other state and serialisability of results are not decided.",
          "trusts go/ssa; lock identity is by struct field, not by object (one Evaler per interpreter)"),
